@@ -2,6 +2,7 @@ import TracklibVerif.Model.DTWTable
 import TracklibVerif.Lemmas.DTW
 /-! Refinement: the executable table form of `_dtw` (`Model/DTWTable.lean`) equals the function-style
 `T` / `pred` of `Model/DTW.lean`; properties of the backward walk. -/
+set_option linter.unusedSectionVars false
 namespace TV.DTW
 variable {α : Type} [LinearOrder α]
 
@@ -425,11 +426,11 @@ variable {α : Type} [Add α] [Sub α] [Mul α] [Div α] [LT α] [LE α] [Decida
 /-- the partners that the pairs of `L` (in visiting order) give to observation `j` of track1 -/
 def partners (L : List (Nat × Nat)) (j : Nat) : List Nat := (L.filter (fun s => s.2 == j)).map (·.1)
 
-omit [Div α] [LE α] [DecidableLE α] in
-theorem fill_foldl (sqrt : α → α) (dim : Nat) (t1 t2 : List (Pt α)) :
+omit [Add α] [Mul α] [Div α] [LT α] [DecidableLT α] [LE α] [DecidableLE α] in
+theorem fill_foldl (dist : Pt α → Pt α → α) (t1 t2 : List (Pt α)) :
     ∀ (L : List (Nat × Nat)) (rows : List (Row α)) (nb : Nat), rows.length = t1.length →
       (∀ s ∈ L, s.1 < t2.length ∧ s.2 < t1.length) →
-      ∃ rows', L.foldl (fillStep sqrt dim t1 t2) (some (rows, nb)) = some (rows', nb + L.length) ∧
+      ∃ rows', L.foldl (fillStep dist t1 t2) (some (rows, nb)) = some (rows', nb + L.length) ∧
         rows'.length = t1.length ∧
         ∀ j, (rows'[j]?).map (·.pair) = (rows[j]?).map (fun r => r.pair ++ partners L j)
   | [], rows, nb, hl, _ => ⟨rows, by simp, hl, by intro j; simp [partners]⟩
@@ -440,8 +441,8 @@ theorem fill_foldl (sqrt : α → α) (dim : Nat) (t1 t2 : List (Pt α)) :
     have hr : s.2 < rows.length := by omega
     simp only [List.foldl_cons, fillStep, List.getElem?_eq_getElem h1, List.getElem?_eq_getElem h2,
       List.getElem?_eq_getElem hr]
-    obtain ⟨rows', he, hl', hp⟩ := fill_foldl sqrt dim t1 t2 L
-      (rows.set s.2 { diff := some (distance sqrt dim t1[s.2] t2[s.1]), pair := rows[s.2].pair ++ [s.1],
+    obtain ⟨rows', he, hl', hp⟩ := fill_foldl dist t1 t2 L
+      (rows.set s.2 { diff := some (dist t1[s.2] t2[s.1]), pair := rows[s.2].pair ++ [s.1],
                       ex := some (t1[s.2].x - t2[s.1].x), ey := some (t1[s.2].y - t2[s.1].y) })
       (nb + 1) (by simp [hl]) (fun s' hs' => hb s' (List.mem_cons_of_mem _ hs'))
     refine ⟨rows', ?_, hl', ?_⟩
@@ -457,12 +458,12 @@ theorem fill_foldl (sqrt : α → α) (dim : Nat) (t1 t2 : List (Pt α)) :
 omit [Div α] [LE α] [DecidableLE α] in
 /-- `_fillAF_dtw` on pairs that exist: `score` and `S` are passed through, `nb_links` is the number of pairs and the
 `pair` feature of observation `j` lists, in coupling order, the partners `i` of the pairs `(i, j)` of `S` -/
-theorem fillAF_spec (sqrt : α → α) (dim : Nat) (t1 t2 : List (Pt α)) (S : List (Nat × Nat)) (score : α)
+theorem fillAF_spec (dist : Pt α → Pt α → α) (t1 t2 : List (Pt α)) (S : List (Nat × Nat)) (score : α)
     (hb : ∀ s ∈ S, s.1 < t2.length ∧ s.2 < t1.length) :
-    ∃ rows, fillAF sqrt dim t1 t2 S score = some { score := score, S := S, rows := rows, nbLinks := S.length } ∧
+    ∃ rows, fillAF dist t1 t2 S score = some { score := score, S := S, rows := rows, nbLinks := S.length } ∧
       rows.length = t1.length ∧
       ∀ j, j < t1.length → (rows[j]?).map (·.pair) = some (partners S.reverse j) := by
-  obtain ⟨rows, he, hl, hp⟩ := fill_foldl sqrt dim t1 t2 S.reverse (t1.map (fun _ => {})) 0 (by simp)
+  obtain ⟨rows, he, hl, hp⟩ := fill_foldl dist t1 t2 S.reverse (t1.map (fun _ => {})) 0 (by simp)
     (fun s hs => hb s (List.mem_reverse.mp hs))
   refine ⟨rows, ?_, hl, ?_⟩
   · have h0 : (freshRows t1).map (fun r : Row α => { r with pair := [] }) = t1.map (fun _ => {}) := by
@@ -493,12 +494,12 @@ section whole
 variable {α : Type} [Add α] [Sub α] [Mul α] [Div α] [LinearOrder α] [OfNat α 0]
 
 /-- the distance matrix of `_dtw` as a function: `D[i,j] = _distance(track2[i], track1[j], dim)` -/
-def Dmat (sqrt : α → α) (dim : Nat) (t1 t2 : List (Pt α)) (i j : Nat) : α :=
-  distance sqrt dim (t2[i]?.getD ⟨0, 0, 0⟩) (t1[j]?.getD ⟨0, 0, 0⟩)
+def Dmat (dist : Pt α → Pt α → α) (t1 t2 : List (Pt α)) (i j : Nat) : α :=
+  dist (t2[i]?.getD ⟨0, 0, 0⟩) (t1[j]?.getD ⟨0, 0, 0⟩)
 
-omit [Div α] in
-theorem distCols_eq (sqrt : α → α) (dim : Nat) (t1 t2 : List (Pt α)) :
-    distCols sqrt dim t1 t2 = dcols (Dmat sqrt dim t1 t2) t1.length t2.length := by
+omit [Add α] [Sub α] [Mul α] [Div α] in
+theorem distCols_eq (dist : Pt α → Pt α → α) (t1 t2 : List (Pt α)) :
+    distCols dist t1 t2 = dcols (Dmat dist t1 t2) t1.length t2.length := by
   unfold distCols dcols Dmat
   rw [map_eq_range' t1 ⟨0, 0, 0⟩]
   congr 1
@@ -508,22 +509,22 @@ theorem distCols_eq (sqrt : α → α) (dim : Nat) (t1 t2 : List (Pt α)) :
 omit [Div α] in
 /-- `_dtw` on two non-empty tracks: the score is the table value at the last pair, `S` is the walk through the
 minimal predecessors, and `_fillAF_dtw` turns `S` into the `pair` lists -/
-theorem dtw_spec (sqrt : α → α) (w : α → α → α) (dim : Nat) (t1 t2 : List (Pt α))
+theorem dtw_spec (dist : Pt α → Pt α → α) (w : α → α → α) (t1 t2 : List (Pt α))
     (h1 : 0 < t1.length) (h2 : 0 < t2.length) :
-    ∃ rows, dtw sqrt w dim t1 t2 = some
-        { score := T w 0 (Dmat sqrt dim t1 t2) (t2.length - 1) (t1.length - 1),
-          S := walkF w 0 (Dmat sqrt dim t1 t2) (t1.length + t2.length) (t2.length - 1, t1.length - 1),
+    ∃ rows, dtw dist w t1 t2 = some
+        { score := T w 0 (Dmat dist t1 t2) (t2.length - 1) (t1.length - 1),
+          S := walkF w 0 (Dmat dist t1 t2) (t1.length + t2.length) (t2.length - 1, t1.length - 1),
           rows := rows,
-          nbLinks := (walkF w 0 (Dmat sqrt dim t1 t2) (t1.length + t2.length) (t2.length - 1, t1.length - 1)).length } ∧
+          nbLinks := (walkF w 0 (Dmat dist t1 t2) (t1.length + t2.length) (t2.length - 1, t1.length - 1)).length } ∧
       rows.length = t1.length ∧
       ∀ j, j < t1.length → (rows[j]?).map (·.pair) = some (partners
-        (walkF w 0 (Dmat sqrt dim t1 t2) (t1.length + t2.length) (t2.length - 1, t1.length - 1)).reverse j) := by
-  have hbp := walkF_backPath w 0 (Dmat sqrt dim t1 t2) (t1.length + t2.length) (t2.length - 1) (t1.length - 1) (by omega)
-  have hhd := walkF_head w 0 (Dmat sqrt dim t1 t2) (t1.length + t2.length) (t2.length - 1, t1.length - 1)
+        (walkF w 0 (Dmat dist t1 t2) (t1.length + t2.length) (t2.length - 1, t1.length - 1)).reverse j) := by
+  have hbp := walkF_backPath w 0 (Dmat dist t1 t2) (t1.length + t2.length) (t2.length - 1) (t1.length - 1) (by omega)
+  have hhd := walkF_head w 0 (Dmat dist t1 t2) (t1.length + t2.length) (t2.length - 1, t1.length - 1)
   have hb := backPath_bounds _ _ _ hbp hhd
-  obtain ⟨rows, he, hl, hp⟩ := fillAF_spec sqrt dim t1 t2
-    (walkF w 0 (Dmat sqrt dim t1 t2) (t1.length + t2.length) (t2.length - 1, t1.length - 1))
-    (T w 0 (Dmat sqrt dim t1 t2) (t2.length - 1) (t1.length - 1))
+  obtain ⟨rows, he, hl, hp⟩ := fillAF_spec dist t1 t2
+    (walkF w 0 (Dmat dist t1 t2) (t1.length + t2.length) (t2.length - 1, t1.length - 1))
+    (T w 0 (Dmat dist t1 t2) (t2.length - 1) (t1.length - 1))
     (fun s hs => by have := hb s hs; omega)
   refine ⟨rows, ?_, hl, hp⟩
   unfold dtw dtwOn
